@@ -8,7 +8,7 @@ func init() {
 			"(d) shard boundaries and iterator filtering of the backup scan (= C10.a, C09.a) and writer/reader framing agreement (= C19); (e) the restored count is taken from the assembled store after the delta phase and before the snapshot is created; restore verification (= C11.d).",
 		Assumptions: []string{},
 		Run: func(c *Ctx) {
-			c.Do("C05.a", "L2 delta logging order", 8, func() { clCollectionWorker(c, "C05.a"); clDeltaHandshakeOrder(c) })
+			c.Do("C05.a", "L2 delta logging order", 8, func() { clCollectionWorker(c, "C05.a"); clDeltaHandshakeOrder(c); clHandshakeCarriesError(c) })
 			c.Do("C05.b", "L5 delta predicate table", 2, func() { clDeltaPredicateTable(c) })
 			c.Do("C05.c", "L4 restore uses the duplicate-rejecting insert", 10, func() { clComparatorRoles(c, map[string]bool{"field:store": true}); clDeltaRestoreFrees(c) })
 			c.Do("C05.d", "L4+L2+L9 scan boundaries, filtering and framing", 12, func() {
